@@ -17,6 +17,8 @@ the logical bytes.  `evs` = `w<len>`/`f` list, `c<k>` (pieces of k), or `-`.  `e
 never-issued id) | `m` (malformed next body) | `j` (malformed cancel body) | `o` (open of an unknown resource) | `w` (a second stream of the same resource is opened and pulled once) | `q` (a `next`
 parked on a gated producer + `cancel` from elsewhere while it is parked: prints `* ack`).
 `conc <idx> <srv> <chunk> <depth> <n> <rounds> <L>`: n clients open simultaneously, per round.
+`many <idx> <srv> <chunk> <depth> <n> <L>`: n streams live (partly pulled) at once on one router, then each finished.
+Script tokens may be repeated: `n*64`.
 `cnext <idx> <srv> <chunk> <depth> <k> <stream> <evs> <aux>`: k connections pull ONE stream concurrently.
 `aux` is the harness's replay recipe (ignored here).
 `duo <idx> <srv> <kind> <chunk> <depth> <streamA> <evsA> <endA> <streamB> <evsB> <endB> <script> <auxA> <auxB>`:
@@ -123,6 +125,13 @@ def runScript (F : Facts) (known : Bool) (id fuel : Nat) (msgs : List Msg) : Lis
     | "k" => runScript F known id fuel msgs ts (sv.cancel id) ("-" :: acc)
     | _ => none
 
+/-- `n*64,c` → 64 × `n`, then `c` -/
+def expandScript (script : String) : List String :=
+  (script.splitOn ",").flatMap fun t =>
+    match t.splitOn "*" with
+    | [tok, k] => List.replicate (natOf k) tok
+    | _ => [t]
+
 def policyOf : String → Option Policy
   | "n" => some .alternate
   | "p" => some .consumerFirst    -- slow producer: the handler is always waiting
@@ -152,7 +161,7 @@ def raw (idx kind comp chunk depth speed stream evs end_ script : String) : Stri
       | none => idx ++ " diverges"
       | some msgs =>
         let (sv, id) := ({} : Server).open msgs
-        match runScript F known id (msgs.length + 2) msgs (script.splitOn ",") sv [] with
+        match runScript F known id (msgs.length + 2) msgs (expandScript script) sv [] with
         | none => idx ++ " bad-op"
         | some out =>
           let mark := if channelAgrees (natOf depth) pol msgs then [] else ["!channel"]
@@ -303,6 +312,10 @@ def step (st : Unit) (ws : List String) : Unit × String :=
     (st, hl idx client puller kind comp chunk stream evs end_)
   | ["cnext", idx, _srv, chunk, _depth, _k, stream, evs, _aux] => (st, cnext idx chunk stream evs)
   | ["conc", idx, _srv, chunk, _depth, n, rounds, L] => (st, conc idx chunk n rounds L)
+  | ["many", idx, _srv, chunk, _depth, n, L] =>
+    -- n streams live at once on one router, one pull from each, then each drained: per stream the same summary
+    let r := concRound Gen.svsFacts (natOf chunk) (natOf n) (natOf L) 0
+    (st, joinSp ([idx, "many", if r.1 then "distinct" else "same"] ++ r.2))
   | ["duo", idx, _srv, kind, chunk, _depth, sa, ea, enda, sb, eb, endb, script, _auxa, _auxb] =>
     (st, duo idx kind chunk sa ea enda sb eb endb script)
   | _ :: idx :: _ => (st, idx ++ " bad-op")
